@@ -150,7 +150,9 @@ def rule_SO(run: Run) -> RuleResult:
     # the selector is the private method that all four operations of Switch go through (whatever its name)
     sel_s = _selector(repo, sw)
     if sel_s is None:
-        raise AnalysisError("Switch: no private selector shared by evaluate/validate/keys/explain (anchor vanished)")
+        res.add("labrea.conditional.Switch:one selector behind evaluate/validate/keys/explain", False, sw.module.relpath, sw.node.lineno,
+                "the four operations of Switch no longer choose the branch through one shared helper", nec)
+        return res
     sel = sel_s.name
     f = sel_s.module.relpath
     ln = sel_s.fn.lineno
@@ -311,6 +313,9 @@ def rule_SO(run: Run) -> RuleResult:
     # ---- Coalesce._delegate
     co = repo.cls("Coalesce")
     dsel_s = _selector(repo, co)
+    if dsel_s is None:
+        res.add("labrea.coalesce.Coalesce:one selector behind evaluate/validate/keys/explain", False, co.module.relpath, co.node.lineno,
+                "the four operations of Coalesce no longer choose the member through one shared helper: they can pick different members", nec)
     f = dsel_s.module.relpath if dsel_s is not None else co.module.relpath
     ln = dsel_s.fn.lineno if dsel_s is not None else co.find_method("evaluate")[1].lineno
     ok_c = True
@@ -820,6 +825,112 @@ def rule_EO(run: Run) -> RuleResult:
     return res
 
 
+# ------------------------------------------------------------------ R-LK
+PARAM_KINDS = ("POSITIONAL_ONLY", "POSITIONAL_OR_KEYWORD", "VAR_POSITIONAL", "KEYWORD_ONLY", "VAR_KEYWORD")
+
+
+def rule_LK(run: Run) -> RuleResult:
+    """lift() treats every parameter that can carry a default."""
+    res = RuleResult("R-LK")
+    nec = ("lifting a function turns every parameter default that is an expression into an evaluated argument; a parameter kind that the loop skips "
+           "(keyword-only parameters, say) keeps its raw default: the function receives the Option object itself, and the application no longer "
+           "reports, validates or keys that option (C05, C13, C19)")
+    import re as _re
+    n = 0
+    for cn in ("FunctionApplication", "PartialApplication"):
+        ci = run.repo.cls(cn)
+        fn = ci.methods.get("lift")
+        if fn is None:
+            continue
+        groups = []
+        for p in analyse_function(Ctx(run.repo), ci.module, fn, cls=ci):
+            for k, pol in Frame.atoms(p.conds).items():
+                if "attr:kind(" not in k or k.startswith("call:any("):
+                    continue
+                named = frozenset(_re.findall(r"attr:(%s)\(" % "|".join(PARAM_KINDS), k))
+                if named and (k.startswith("cmp:Eq(") or k.startswith("cmp:In(")) and named not in groups:
+                    groups.append(named)
+        if not groups:
+            continue
+        n += 1
+        # a test on the kind splits the parameters in two groups; one of them must consist of *args / **kwargs only (they carry no default)
+        bad = [sorted(g_) for g_ in groups if not (g_ <= {"VAR_KEYWORD", "VAR_POSITIONAL"} or (set(PARAM_KINDS) - g_) <= {"VAR_KEYWORD", "VAR_POSITIONAL"})]
+        res.add(f"{ci.qualname}.lift:only *args/**kwargs parameters are set apart", not bad, ci.module.relpath, fn.lineno,
+                f"kind tests: {[sorted(g_) for g_ in groups]}" + ("" if not bad else f" — the test on {bad[0]} separates parameters that can carry a default (keyword-only ones) from the rest"), nec)
+    if n == 0:
+        raise AnalysisError("R-LK: no lift() tests the kind of a parameter (anchor vanished)")
+    return res
+
+
+# ------------------------------------------------------------------ R-KB
+def unbounded_key_prefix_tests(tree: ast.AST) -> List[tuple]:
+    """(line, text) of every ``a.startswith(b)`` / ``a.endswith(b)`` with a non-constant b that is not closed by the key separator."""
+    out = []
+    for n in ast.walk(tree):
+        if isinstance(n, ast.Call) and isinstance(n.func, ast.Attribute) and n.func.attr in ("startswith", "endswith") and n.args:
+            b = n.args[0]
+            if isinstance(b, ast.Constant):
+                continue
+            if isinstance(b, ast.Tuple) and all(isinstance(x, ast.Constant) for x in b.elts):
+                continue
+            closed = (isinstance(b, ast.BinOp) and isinstance(b.op, ast.Add) and isinstance(b.right if n.func.attr == "startswith" else b.left, ast.Constant)
+                      and str((b.right if n.func.attr == "startswith" else b.left).value) == ".") or \
+                     (isinstance(b, ast.JoinedStr) and b.values and isinstance(b.values[-1 if n.func.attr == "startswith" else 0], ast.Constant)
+                      and str(b.values[-1 if n.func.attr == "startswith" else 0].value).endswith(".") if n.func.attr == "startswith" else False)
+            if not closed:
+                out.append((n.lineno, ast.unparse(n)[:70]))
+    return out
+
+
+def rule_KB(run: Run) -> RuleResult:
+    """Dotted keys are compared at the dot."""
+    res = RuleResult("R-KB")
+    nec = ("'A.X' lies below the section 'A'; 'AB' and 'A_UNIT' do not. A test `key.startswith(other)` without the separator takes every key that "
+           "merely begins with the same text for a member of the section: it is dropped from a fingerprint, from the recorded options of a dataset "
+           "class, from a filter — and two dictionaries that differ only there are treated alike (C01, C03, C19)")
+    probe = ast.parse("def f(keys):\n    kept = []\n    for k in sorted(keys):\n        if not k.startswith(tuple(kept)):\n            kept.append(k)\n    return kept\n")
+    if not unbounded_key_prefix_tests(probe):
+        raise AnalysisError("R-KB: the prefix-test detector no longer sees its positive example")
+    for m in run.repo.modules.values():
+        if m.name.startswith("labrea.mypy"):
+            continue
+        hits = unbounded_key_prefix_tests(m.tree)
+        res.add(f"{m.name}:no prefix test between keys without the separator", not hits, m.relpath, hits[0][0] if hits else 1,
+                "every startswith/endswith tests a literal" if not hits else f"{hits[0][1]} (line {hits[0][0]})", nec)
+    return res
+
+
+# ------------------------------------------------------------------ R-KW
+KW_EXEMPT = {("labrea.template.Template.__init__", "template"): "the template text is the constructor's own first argument (public signature); a parameter "
+                                                                   "called `template` cannot be given, as documented"}
+
+
+def rule_KW(run: Run) -> RuleResult:
+    """Functions that collect the user's keyword arguments keep no keyword for themselves."""
+    res = RuleResult("R-KW")
+    nec = ("lifted functions and partial applications hand every user argument on as a keyword (**kwargs); a named parameter of the collecting "
+           "function (name=, key=, options= …) captures the user's argument of that name: it is never evaluated, its keys are not reported, and "
+           "the user's function runs with its raw default (C05, C09, C13)")
+    n = 0
+    for m, cls, fn, q in iter_functions(run.repo):
+        if m.name.startswith("labrea.mypy") or fn.args.kwarg is None:
+            continue
+        if fn.name in ("__init_subclass__", "__new__", "__prepare__") or (cls is not None and any("type" == ast.unparse(b) for b in cls.bases) and fn.name == "__init__"):
+            continue        # class-creation hooks receive class keywords, not user arguments
+        a = fn.args
+        named = [x.arg for x in a.args + a.kwonlyargs]
+        if cls is not None and named and not any(ast.unparse(d) == "staticmethod" for d in fn.decorator_list) and a.args and named[0] == a.args[0].arg and not a.posonlyargs:
+            named = named[1:]
+        capturing = [p for p in named if not p.startswith("__") and (q, p) not in KW_EXEMPT]
+        n += 1
+        res.add(f"{q}:keeps no keyword beside **{a.kwarg.arg}", not capturing, m.relpath, fn.lineno,
+                f"parameters beside **{a.kwarg.arg}: {named or 'none'}" if not capturing else f"parameter(s) {capturing} capture a user keyword argument of the same name", nec)
+    res.count("collecting_functions", n)
+    if n < 8:
+        raise AnalysisError(f"R-KW: only {n} functions collecting keyword arguments found")
+    return res
+
+
 # ------------------------------------------------------------------ R-ON
 DERIVED_OK = {
     ("Namespace", "_members[*].build()"): "an _Auto entry is not an expression itself: it builds its Option on demand",
@@ -858,6 +969,23 @@ def rule_ON(run: Run) -> RuleResult:
                     why = f"{meth}() is a method of {sorted(c.name for c in definers)}, not of an expression: its result is the expression it builds on demand"
                 res.add(f"{cls.qualname}:{op}:operates on {path}", why is not None, owner.module.relpath, line,
                         why or f"{cls.name}.{op} issues {op} on the result of calling a method of a child ({path}) — a fresh object, not the one the expression was built from", nec)
+    # expressions are never deep-copied: a copy of a dataset is another object (and takes its overload table, cache and lock along);
+    # the one deep copy in the library is Value.evaluate handing out a copy of a plain wrapped value
+    copies = []
+    for m, cls, fn, q in iter_functions(run.repo):
+        if m.name.startswith("labrea.mypy"):
+            continue
+        for c in astu.calls_in(fn):
+            r_ = run.repo.resolve_expr(m, c.func) if isinstance(c.func, (ast.Name, ast.Attribute)) else None
+            if r_ and r_[0] == "external" and r_[1] in ("copy.deepcopy", "copy.copy"):
+                copies.append((q, c.lineno, m.relpath, ast.unparse(c)[:60]))
+    for q, line, rel, txt in copies:
+        ok = q.endswith("Value.evaluate")
+        res.add(f"{q}:deep copy of {txt}", ok, rel, line,
+                "the wrapped plain value is handed out as a copy" if ok else f"{txt}: whatever expressions the copied object holds are cloned — operations on the clones "
+                "name anonymous objects, and a clone of a dataset no longer shares registrations with the original", nec)
+    if not any(q.endswith("Value.evaluate") for q, *_ in copies):
+        raise AnalysisError("R-ON: Value.evaluate no longer deep-copies its value (anchor vanished)")
     res.count("derived targets", n)
     res.count("classes", len(run.node_classes()))
     return res
@@ -955,6 +1083,24 @@ def rule_RG(run: Run) -> RuleResult:
                 ok = True
                 bo_line = n.lineno
     res.add("labrea.interface._build_overloads:unknown member rejected", ok, im.module.relpath, bo_line, "if key not in members: raise TypeError", nec)
+    # several aliases are given as a *list* (as for Dataset.overload): any other hashable — a tuple above all, the natural alias of a
+    # dispatch over several options — is one alias and must be registered whole
+    import re as _re
+    for q_ in ("labrea.interface.implements",):
+        fi_ = repo.functions.get(q_)
+        if fi_ is None:
+            raise AnalysisError(f"{q_} not found")
+        kinds = set()
+        for p_ in analyse_function(Ctx(repo), fi_.module, fi_.node):
+            for k_, pol_ in Frame.atoms(p_.conds).items():
+                m_ = _re.match(r"call:isinstance\((\w+),(.*)\)$", k_)
+                if m_ and "alias" in m_.group(1):
+                    kinds |= {x.split(".")[-1] for x in _re.findall(r"(?:name|class|ext)<([^>]+)>", m_.group(2))}
+        ok_ = kinds == {"list"}
+        res.add(f"{q_}:only a list of aliases is registered element-wise", ok_, fi_.module.relpath, fi_.node.lineno,
+                f"the alias argument is split when it is a {sorted(kinds)}" + ("" if ok_ else ": a tuple (or other hashable sequence) is a single alias"),
+                "an implementation registered under the elements of a tuple alias instead of under the tuple is never selected by a dispatch that "
+                "evaluates to that tuple: the default (or a failure) is used instead (C05, C07)")
     return res
 
 
@@ -1346,11 +1492,33 @@ def rule_CD(run: Run) -> RuleResult:
                                 res.add(f"{cls.qualname}.{op}:user callable called inside try/except {one}", False, e.file, e.line,
                                         f"a user-supplied callable is called (line {e.line}) inside a try that catches {one}: an exception raised by user code is swallowed "
                                         "instead of surfacing as an EvaluationError", nec)
+    # user code never runs inside a C-level iterator whose exhaustion is then tested: map()/filter()/itertools pass a StopIteration
+    # raised by the function they apply straight on, and next(it, default) takes it for "no more items" — the failure vanishes
+    LAZY = {"map", "filter", "itertools.starmap", "itertools.takewhile", "itertools.dropwhile", "itertools.filterfalse", "itertools.accumulate"}
+    probe_ = ast.parse("def f(cases, default):\n    return next(filter(lambda c: c[0](), cases), default)\n").body[0]
+
+    def swallowing_next(fn_):
+        return [x for x in astu.walk_no_nested(fn_) if isinstance(x, ast.Call) and astu.callee_name(x) == "next" and len(x.args) == 2
+                and isinstance(x.args[0], ast.Call) and astu.callee_name(x.args[0]) in LAZY]
+    if not swallowing_next(probe_):
+        raise AnalysisError("R-CD: the next(filter(...), default) detector no longer sees its positive example")
+    for m, cls, fn, q in iter_functions(repo):
+        if m.name.startswith("labrea.mypy"):
+            continue
+        for x in swallowing_next(fn):
+            res.add(f"{q}:next({astu.callee_name(x.args[0])}(…), default) hides a StopIteration of the applied function", False, m.relpath, x.lineno,
+                    f"{ast.unparse(x)[:80]}: a StopIteration raised while the function runs (user predicates, bodies) ends the search instead of surfacing", nec)
     res.count("user_calls", n_calls)
     missing = FT - seen_ft
     for q in sorted(missing):
         res.add(f"{ft_label.get(q, q)}:fall-through handler present", False, "", 0, "documented fall-through point has no except EvaluationError handler any more", nec)
-    if len(FT) < 6:
+    for cname in ("Switch", "Coalesce"):
+        ci_ = repo.cls(cname)
+        if _selector(repo, ci_) is None:
+            res.add(f"{ci_.qualname}:one selector behind evaluate/validate/keys/explain", False, ci_.module.relpath, ci_.node.lineno,
+                    "the four operations no longer choose their branch through one shared helper: the fall-through point (and what it catches) "
+                    "differs between them", nec)
+    if len(FT) < 4:
         raise AnalysisError(f"R-CD: only {len(FT)} fall-through points identified (selectors of Switch and Coalesce plus four explain methods expected)")
     res.count("handlers", n)
     return res
